@@ -549,6 +549,17 @@ class ModGen:
                             t = d.choice(tg)
                             e = ["pref", t[0], t[1]]
                             self.feats.add("decoy_reference_to_open_port")
+                    if e is None and inst["kind"] == "inst" and p[0] == "sig" and d.bool(15):
+                        # a decoy that is (a slice of) a reference to a port of an InstanceArray which ends up no-connected
+                        # (not of an array made by a later `n * inst`: an instance that is referenced may not be multiplied)
+                        late_arrays = {i2["name"] for i2 in self.insts if i2.get("via") == "mult_late"}
+                        ta = [(k2, v2) for k2, v2 in self.portinfo.items() if v2["kind"] == "array" and v2["plan"] == "nc" and v2["width"] is not None and k2[0] not in late_arrays
+                              and v2["width"] >= p[2] and k2[0] != inst["name"] and k2[1] not in ("n", "of", "name", "conns")]  # (`arr.n` is the array's size)
+                        if ta:
+                            (an, ap), av = d.choice(ta)
+                            e = ["pref", an, ap] if av["width"] == p[2] and d.bool(40) else \
+                                ["slice", ["pref", an, ap], self.slice_index(av["width"], d.int(0, av["width"] - p[2]), p[2], ref_parent=True)]
+                            self.feats.add("decoy_slice_of_array_port_reference")
                     if e is None:
                         e = self.conn_for(inst, p, key, fake, allow_ref=(inst["kind"] == "inst" or inst.get("via") == "mult_late"))
                     op = "replace" if connected is not None and d.bool(30) else d.choice(["call", "setattr", "connect"])
